@@ -279,7 +279,8 @@ def _rules(r, pre, purity):
     compare_function(r, pre + "C09-VAL", B + "is_in_standard_format", SPEC, "standard format = a DataFrame with at least one of the six TCR columns", eq=eqs, key="standard format")
     for mname, nargs in (("calc_cdist_matrix", 2), ("calc_pdist_vector", 1)):
         ms = r.A.summary(base + mname)
-        first = [e for e in ms.events if e.kind in ("call", "load_sub", "setitem") and not (e.kind == "call" and strip(strip(e["term"])[1]) == ("glob", "builtins.super"))][0]
+        uses_args = lambda x: any(y[0] == "param" for v in x.data.values() if isinstance(v, tuple) for y in walk(v))       # a logging call that touches no argument does not count
+        first = [e for e in ms.events if e.kind in ("call", "load_sub", "setitem") and not (e.kind == "call" and strip(strip(e["term"])[1]) == ("glob", "builtins.super")) and uses_args(e)][0]
         c = strip(first["term"]) if first.kind == "call" else None
         ok = c is not None and head(strip(c[1])) == "attr" and strip(c[1])[2] == mname and strip(strip(strip(c[1])[1])[1]) == ("glob", "builtins.super") if c is not None and head(strip(strip(c[1])[1])) == "call" else False
         ok = ok and tuple(strip(a) for a in c[2]) == tuple(("param", p[0]) for p in ms.params[1:1 + nargs]) and not first.ctx.guards
